@@ -374,7 +374,8 @@ def gen_C11(tier, rng):
 
 
 def eval_C11(case):
-    from lbfgsb.linesearch import line_search, max_allowed_steplength
+    from lbfgsb.linesearch import line_search
+    from harness.runs import ref_max_step
     from lbfgsb.scalar_function import ScalarFunction
 
     rng = np.random.default_rng(case["pseed"])
@@ -413,8 +414,8 @@ def eval_C11(case):
     if fail is None and (sf.nfev - n0 > cap or sf.ngev - g0n > cap):
         fail = f"line search used {sf.nfev - n0} evaluations > cap {cap}"
     if fail is None and st is not None:
-        mx = max_allowed_steplength(x0, d, lb, ub, 1e8, it)
-        if not (0 < st <= mx):
+        mx = ref_max_step(x0, d, lb, ub, 1e8, it)   # the harness's own computation; one rounding of slack on the quotient
+        if not (0 < st <= mx * (1.0 + 4e-16)):
             fail = f"returned step {st!r} not in (0, {mx!r}]"
         elif not (f(np.clip(x0 + st * d, lb, ub)) < f0):
             fail = f"returned step is not strictly downhill: f0={f0!r}, f(step)={f(np.clip(x0 + st * d, lb, ub))!r}"
